@@ -2,7 +2,7 @@
    Property theorems only; the model (abstract transition system of IntronCollector / IntronGraph, path threading, the decision
    sequence of construct_fl_isoforms, the model store) is in Graph.v, the proofs in GraphProofs.v. *)
 From Coq Require Import ZArith List Bool Lia Sorting.Permutation.
-From IQ Require Import Exons Graph GraphProofs GraphCluster.
+From IQ Require Import Exons Graph GraphProofs GraphCluster GraphPasses GraphPaths.
 Import ListNotations. Open Scope Z_scope.
 
 (* --- the graph: for ALL operation sequences (any interleaving of clustering, edge insertion, collapsing, discarding, simplification)
@@ -94,6 +94,84 @@ Example ex_cluster : cluster [] 2 3 [((100, 200), 4); ((101, 200), 4); ((103, 20
   (mkCS [((102, 202), 13)] [((101, 200), (102, 202)); ((100, 200), (102, 202)); ((103, 201), (102, 202))] [(300, 400)],
    [AddVertex (102, 202); ClusterSubst (101, 200) (102, 202); ClusterSubst (100, 200) (102, 202); ClusterDiscard (300, 400); ClusterSubst (103, 201) (102, 202)]).
 Proof. vm_compute. reflexivity. Qed.
+
+(* --- construct and the simplification decisions as executable functions (GraphPasses.v) *)
+(* construct: after clustering every add_edge call is accepted; clustering followed by construct is a run for EVERY read set *)
+Theorem C04_construct_is_run : forall reads s, Inv (read_introns reads) s -> pend s = [] -> simplifiedb s = true ->
+  exists s', run s (construct_ops (disc s) reads) = Some s' /\ vert s' = vert s /\ smap s' = smap s /\ disc s' = disc s /\ pend s' = [].
+Proof. exact construct_is_run. Qed.
+Print Assumptions C04_construct_is_run.
+Theorem C04_cluster_then_construct_is_run : forall known delta mnc reads,
+  exists s0 s, run (init reads) (snd (cluster known delta mnc (collect_counts reads))) = Some s0 /\
+               run s0 (construct_ops (disc s0) reads) = Some s /\ pend s = [] /\ vert s = vert s0.
+Proof. exact cluster_then_construct_is_run. Qed.
+Print Assumptions C04_cluster_then_construct_is_run.
+(* collapse_vertex_set: a collapsed vertex and its target are members of the set, the target is kept (chains of length one), both ends are closer
+   than graph_clustering_distance and count(v) < count(s) * graph_clustering_ratio *)
+Theorem C04_collapse_vertex_set_spec : forall P C vs v s, NoDup vs -> In (v, s) (collapse_vertex_set P C vs) ->
+  In v vs /\ In s vs /\ v <> s /\ close_enough P C (cnt_lookup C v) v s = true /\
+  ~ In s (map fst (collapse_vertex_set P C vs)) /\ NoDup (map fst (collapse_vertex_set P C vs)).
+Proof. exact collapse_vertex_set_spec. Qed.
+Print Assumptions C04_collapse_vertex_set_spec.
+(* by construction: for EVERY vertex set, count table and to_remove set, the collapse_vertex calls the decision leads to are accepted by the
+   abstract system (hence preserve its 13-clause invariant, never add a vertex, and the loop is a structural recursion) *)
+Theorem C04_collapse_decision_is_run : forall P C vs removed s, NoDup vs -> (forall v, In v vs -> In v (vert s)) ->
+  let todo := filter (fun p => negb (mem (fst p) removed)) (sort_keys (collapse_vertex_set P C vs)) in
+  exists s', run s (map (fun p => Collapse (fst p) (snd p)) todo) = Some s' /\
+             (forall v, In v (vert s') <-> In v (vert s) /\ ~ In v (map fst todo)) /\ pend s' = pend s /\ disc s' = disc s.
+Proof. exact collapse_decision_is_run. Qed.
+Print Assumptions C04_collapse_decision_is_run.
+(* remove_isolates (collapse among the isolated vertices, then the low-coverage discards) is accepted for every isolated set *)
+Theorem C04_isolates_is_run : forall P C iso s, NoDup iso -> (forall v, In v iso -> In v (vert s)) -> (forall v, In v (map fst C) <-> In v (vert s)) ->
+  let todo := sort_keys (collapse_vertex_set P C iso) in
+  let C' := fold_left (fun C p => cnt_substitute C (fst p) (snd p)) todo C in
+  exists s', run s (map (fun p => Collapse (fst p) (snd p)) todo ++ map Discard (isolate_discards P C' iso)) = Some s'.
+Proof. exact isolates_is_run. Qed.
+Print Assumptions C04_isolates_is_run.
+(* the replay of a logged event sequence with predicted decisions projects to a run of the abstract system *)
+Theorem C04_xrun_projects : forall P evs x x', xrun P x evs = Some x' -> run (x_g x) (xops evs) = Some (x_g x').
+Proof. exact xrun_projects. Qed.
+Print Assumptions C04_xrun_projects.
+(* a bulge: the rare variant (1 read) of a junction next to the frequent one (6 reads) is collapsed into it; a third, distant vertex is kept *)
+Example ex_collapse_vertex_set :
+  collapse_vertex_set (mkGP 10 1 2 2 []) [((100, 200), 6); ((107, 200), 1); ((140, 200), 1)] [(107, 200); (140, 200); (100, 200)] = [((107, 200), (100, 200))].
+Proof. vm_compute. reflexivity. Qed.
+Example ex_construct_ops : construct_ops [(50, 60)] [(false, [(10, 20); (30, 40); (70, 80)]); (false, [(10, 20); (50, 60)]); (true, [(10, 20); (30, 40)])] =
+  [AddEdge (10, 20) (30, 40); AddEdge (30, 40) (70, 80)].
+Proof. vm_compute. reflexivity. Qed.
+
+(* --- how full-length paths come about (GraphPaths.v) *)
+Theorem C04_thread_ends_attached : forall G P intron e trusted v, thread_ends G P intron e trusted = Some v ->
+  In (intron, v) (f_tout G) /\ (fst v = VERTEX_polya \/ fst v = VERTEX_read_end).
+Proof. exact thread_ends_attached. Qed.
+Print Assumptions C04_thread_ends_attached.
+Theorem C04_thread_starts_attached : forall G P intron st trusted v, thread_starts G P intron st trusted = Some v ->
+  In (intron, v) (f_tin G) /\ (fst v = VERTEX_polyt \/ fst v = VERTEX_read_start).
+Proof. exact thread_starts_attached. Qed.
+Print Assumptions C04_thread_starts_attached.
+(* every full-length path: starting vertex attached to its first intron, the threaded image of a non-multimapped read's introns - vertices only -,
+   terminal vertex attached to its last intron *)
+Theorem C04_fl_path_spec : forall reads0 ops s G P (reads : list xread) c,
+  run (init reads0) ops = Some s -> pend s = [] -> simplifiedb s = true ->
+  (forall r, In r reads -> xr_mm r = false -> In (xr_introns r) (collected reads0) \/ xr_introns r = []) ->
+  In c (fl_paths s G P reads) ->
+  exists r sv p tv, In r reads /\ xr_mm r = false /\ c = sv :: p ++ [tv] /\ p <> [] /\ thread s (xr_introns r) = Some p /\
+                    (forall v, In v p -> In v (vert s)) /\
+                    In (hd sv p, sv) (f_tin G) /\ In (last p tv, tv) (f_tout G).
+Proof. exact fl_path_spec. Qed.
+Print Assumptions C04_fl_path_spec.
+(* "consecutive introns of a path are joined by an edge of the simplified graph" is false of the faithful system (remove_singleton_dead_ends cuts
+   edges, the introns stay): observed on the real class too (graph_system reports the number of such path steps) *)
+Theorem C04_path_edges_refuted : ~ (forall reads ops s r p, run (init reads) ops = Some s -> pend s = [] -> simplifiedb s = true ->
+  In r (collected reads) -> thread s r = Some p -> forall e, In e (adjacent p) -> In e (edges s)).
+Proof. exact path_edges_refuted. Qed.
+Print Assumptions C04_path_edges_refuted.
+(* a polyA read ending 4 bases from a polyA vertex takes it; an untrusted read ending inside the next exon gets no terminal vertex *)
+Example ex_thread_ends :
+  let G := mkF [((10, 20), (30, 40))] [((30, 40), (10, 20))] [((10, 20), (VERTEX_polya, 100)); ((10, 20), (VERTEX_read_end, 90))] [] in
+  thread_ends G (mkPP 6 10 true) (10, 20) 104 true = Some (VERTEX_polya, 100) /\ thread_ends G (mkPP 6 10 true) (10, 20) 33 false = None /\
+  thread_ends G (mkPP 6 10 true) (10, 20) 95 false = Some (VERTEX_polya, 100).
+Proof. vm_compute. repeat split. Qed.
 
 (* --- construct_fl_isoforms *)
 (* known-chain suppression: a model emitted as novel from the threaded path of a read never has the intron chain of a reference
